@@ -22,6 +22,7 @@ func main() {
 	goos := flag.String("goos", "", "GOOS for the load")
 	goarch := flag.String("goarch", "", "GOARCH for the load")
 	noEvidence := flag.Bool("no-evidence", false, "do not write evidence (used for extra build configurations)")
+	noReplay := flag.Bool("no-replay", false, "do not write replay files")
 	list := flag.Bool("list", false, "list properties with rule sets")
 	extraFile := flag.String("extra-file", "", "file whose lines are recorded in the evidence as config_runs (thorough tier)")
 	flag.Parse()
@@ -41,6 +42,7 @@ func main() {
 	}
 	seed, _ := strconv.ParseInt(os.Getenv("VERIF_SEED"), 10, 64)
 	rep := core.NewReport(*prop, *tier)
+	rep.NoReplay = *noReplay
 	p, err := core.Load(*repo, *goos, *goarch)
 	if err != nil {
 		// a tree that does not load cannot be vouched for
